@@ -622,6 +622,14 @@ func (e *Engine) evalCall(x *Expr, se *SpecEnv) Val {
 		sv := arg(0)
 		pos := arg(1).L[0]
 		return mkBool(And(Le(sv.L[1], pos), Lt(pos, Add(sv.L[1], sv.L[2]))))
+	case "ident":
+		// ident(a, b): structural identity (for floats: same bit pattern class, NaN included), unlike Go's ==
+		a, b := e.coerce(arg(0), arg(1))
+		var cs []Term
+		for i := range a.L {
+			cs = append(cs, T(SBool, "(= %s %s)", a.L[i].S, b.L[i].S))
+		}
+		return mkBool(And(cs...))
 	case "mark":
 		// mark(x): an always-true marker used purely as an instantiation trigger
 		a := arg(0)
